@@ -90,6 +90,9 @@ class Walker:
             # C01: a callback runs only while its source is inserted and enabled (the latitude for a source that removed or disabled
             # ITSELF is already applied by the rule that produced this failure)
             self.fails.append("C01/not-inserted-and-enabled: %s" % msg)
+        if prop == "C14" and kind in ("disabled", "disabled-after-update"):
+            # C07: disable() silences a source until enable() - its before_sleep hook (and the synthetic event it may produce) included
+            self.fails.append("C07/hook-while-disabled: %s: a disabled source must not be called at all until enable()" % msg)
         if (prop, kind) == ("C07", "callback-while-disabled"):
             for h in sorted(getattr(self, "disabled_inside", ())):
                 if ("source %d " % h) in msg:
@@ -136,6 +139,9 @@ class Walker:
             p = int(ws[1])
             if self.ping_handles.get(p, 0) > 0:
                 self.pingc[self.ping_fd[p]] = self.pingc.get(self.ping_fd[p], 0) + 1
+                if self.cur is not None or self.cur_idle is not None:
+                    self.ping_inside = getattr(self, "ping_inside", {})
+                    self.ping_inside[self.ping_fd[p]] = self.cur if self.cur is not None else -1      # issued from inside a callback / an idle
         elif op == "clonep":
             p = int(ws[1])
             if self.ping_handles.get(p, 0) > 0:
@@ -227,6 +233,13 @@ class Walker:
     def check_released(self, where):
         """C06, release clause (theorem C06_released_by_end_of_dispatch): between two top-level operations every removed source
         whose Dispatcher the scenario no longer holds has been dropped"""
+        for h in sorted(self.dead):
+            # ... and every removed composite has been told to unregister (it sees its own register / reregister / unregister calls)
+            if getattr(self, "reg_state", {}).get(h) and h not in self.excused and h not in self.failed_insert and h not in getattr(self, "still_reg_reported", set()):
+                self.still_reg_reported = getattr(self, "still_reg_reported", set())
+                self.still_reg_reported.add(h)
+                self.fail("C06", "not-unregistered", "source %d was removed, yet the last thing it was told is that it is registered: its unregister() "
+                          "had not been called %s - it is not released" % (h, where))
         for h in sorted(self.dead):
             if h in self.user_disp or h in self.excused or h in self.failed_insert or h in self.unreleased_reported:
                 continue
@@ -459,6 +472,9 @@ class Walker:
                     # the composite (and its Timer) was (re)registered after this dispatch polled: an expiry already in the
                     # batch may still arrive and leave a second wheel entry behind (finding F5)
                     self.ctimer[hh]["rereg_in"] = self.disp_no
+                if ws[3] == "0":
+                    self.reg_state = getattr(self, "reg_state", {})
+                    self.reg_state[hh] = ws[2] in ("0", "1")      # what the composite itself was last told: registered / unregistered
                 sp16 = self.spec.get(hh)
                 if sp16 and sp16[2] == "comp":
                     nsub = (len(sp16) - 5) // 3
@@ -741,6 +757,7 @@ class Walker:
                 self.fail("C03", "spurious", "ping source %d called back without a ping since its last callback" % h)
             if fd is not None:
                 self.pingc[fd] = 0
+                getattr(self, "ping_inside", {}).pop(fd, None)
         if kind == "chan":
             sp = self.spec.get(h)
             c = self.chan.get(int(sp[3])) if sp else None
@@ -872,6 +889,11 @@ class Walker:
                     self.fail("C03", "lost-ping", "a ping() on source %d returned before this dispatch polled, the source is inserted and enabled, "
                               "and the dispatch returned Ok without calling it back" % h)
                     self.slot_reuse_note(h)
+                    who = getattr(self, "ping_inside", {}).get(int(sp[3]))
+                    if who is not None:
+                        self.fail("C08", "ping-from-callback-lost", "ping() on the handle of source %d was called from inside %s and returned; the source is "
+                                  "inserted and enabled, yet the following Ok dispatch did not call it back: a handle used from inside a callback had no effect"
+                                  % (h, "an idle callback" if who == -1 else "the callback of source %d" % who))
             elif kind == "chan" and sp:
                 n, senders, closed = snap["chan"].get(int(sp[3]), (0, 1, False))
                 if (n > 0 or (senders == 0 and not closed)):
